@@ -4,6 +4,7 @@ import (
 	"bytes"
 	"fmt"
 	"os"
+	"os/exec"
 	"path/filepath"
 	"sort"
 	"strings"
@@ -688,8 +689,84 @@ func layoutSig(c *c19Case) (sig string, badThenGood bool, nGood, nBad int) {
 	return sb.String(), badThenGood, nGood, nBad
 }
 
+// runC19CLI runs the built command line tool (`gtfs journal -o <out> <dir>`) as a sub-process on the
+// case's directory (listing-time bad entries only: there is no instant between listing and read the
+// simulator could own in another process) and compares its two CSV files with the export of the
+// reference journal.
+func runC19CLI(t *sim.T, c *c19Case) *sim.Violation {
+	cli := os.Getenv("VERIF_CLI")
+	if cli == "" {
+		return nil
+	}
+	dirSeq++
+	root := filepath.Join(ScratchBase(), fmt.Sprintf("cli%d", dirSeq))
+	d := &dirSim{t: t, root: root, dir: filepath.Join(root, "d"), cache: map[uint64]string{}}
+	outDir := filepath.Join(root, "out")
+	for _, p := range []string{d.dir, filepath.Join(root, "x"), outDir} {
+		if err := os.MkdirAll(p, 0o755); err != nil {
+			panic("harness: " + err.Error())
+		}
+	}
+	defer os.RemoveAll(root)
+	for i := range c.entries {
+		e := c.entries[i]
+		e.exists = true
+		switch e.kind {
+		case kGood, kEmpty, kTruncated, kBitflip, kGarbage, kLinkToGood:
+			e.isFile = true
+		}
+		d.events = append(d.events, e.name)
+		d.materialise(&e, c.extra[0])
+		d.ents = append(d.ents, &e)
+	}
+	sort.Slice(d.ents, func(a, b int) bool { return d.ents[a].name < d.ents[b].name })
+	ref := &sliceSource{}
+	for _, e := range d.ents {
+		if !e.isFile {
+			continue
+		}
+		r, err, pv, _ := parseRT(append([]byte(nil), e.data...), sourceOpts())
+		if pv == nil && err == nil {
+			ref.items = append(ref.items, r)
+		}
+	}
+	var jr *journal.Journal
+	pv, _ := guard(func() { jr = journal.BuildJournal(ref, time.Unix(0, 0), time.Unix(1<<40, 0)) })
+	if pv != nil {
+		return nil // C05's business
+	}
+	want, err := jr.ExportToCsv()
+	if err != nil {
+		return nil
+	}
+	cmd := exec.Command(cli, "journal", "-o", outDir, d.dir)
+	out, err := cmd.CombinedOutput()
+	t.Probe("cli-run")
+	if err != nil {
+		return &sim.Violation{Class: "cli", Signature: "C19:cli-failed", Detail: fmt.Sprintf("gtfs journal failed on a directory with %d entries: %v: %s", len(d.ents), err, sim.Clip(string(out), 400))}
+	}
+	gotTrips, e1 := os.ReadFile(filepath.Join(outDir, "trips.csv"))
+	gotStops, e2 := os.ReadFile(filepath.Join(outDir, "stop_times.csv"))
+	if e1 != nil || e2 != nil {
+		return &sim.Violation{Class: "cli", Signature: "C19:cli-no-output", Detail: "gtfs journal did not write its CSV files"}
+	}
+	if !bytes.Equal(gotTrips, want.TripsCsv) || !bytes.Equal(gotStops, want.StopTimesCsv) {
+		return &sim.Violation{Class: "cli", Signature: "C19:cli-export-differs", Detail: fmt.Sprintf("the CSV files written by `gtfs journal` differ from the export of the journal built from the directory's good files (%d entries, %d good)", len(d.ents), len(ref.items))}
+	}
+	return nil
+}
+
 func runC19(t *sim.T, tier string) *sim.Violation {
 	c := genC19Case(t)
+	if (tier == "thorough" && t.Chance(1, 40)) || (tier != "thorough" && t.Chance(1, 150)) {
+		for _, e := range c.entries {
+			t.Logf("entry %q: %s (%d bytes)", e.name, entKindNames[e.kind], len(e.data))
+		}
+		t.Logf("run the command line tool on this directory")
+		if v := runC19CLI(t, c); v != nil {
+			return v
+		}
+	}
 	lsig, btg, nGood, nBad := layoutSig(c)
 	if btg {
 		t.Probe("bad-then-good")
